@@ -49,6 +49,13 @@ Mirror == Ready => \A s \in Schemes :
 DPisOpt == Ready => \A s \in Schemes :
                   LET C == Cost(ds, s[1], s[2], U) IN OptDP(C, U) = Opt(C, U)
 
+\* the "no ties" pruning of the optimised exact models: if no pair is strictly cheaper to tie than the mean of its
+\* two orders, some optimal consensus has no tie (the pruning must use the threshold 0: see known_findings F17)
+NoTiePruningSound == Ready => \A s \in Schemes :
+                  LET C == Cost(ds, s[1], s[2], U) IN
+                  (\A p \in Pairs(U) : C[p][1] + C[p][2] <= 2 * C[p][3]) =>
+                      \E c \in OptSet(C, U) : \A b \in DOMAIN c : Cardinality(c[b]) = 1
+
 \* unit 4: unifying / induced / pseudo-distance with p = 1 and 1/2, extended, and three irregular valid schemes
 SchemesQuick == { <<UnifyingB(4, 4), UnifyingT(4, 4)>>, <<UnifyingB(4, 2), UnifyingT(4, 2)>>,
                   <<InducedB(4, 2), InducedT(4, 2)>>, <<PseudoB(4, 2), PseudoT(4, 2)>>,
